@@ -16,12 +16,12 @@ EXPLANATION = (
     "the persistence module (Boissonnat-Pritam / Glisse-Pritam) - is NOT formalised (Definition C12_collapse_preserves_barcode_full "
     ": Prop).  It is measured: for every generated graph the extracted, certified pairing oracle (certified_lows of ReduceExec.v, "
     "proved canonical for every prime) computes the diagrams over Z_2 and Z_3, in every dimension up to the clique number, of the input "
-    "flag filtration and of the flag filtration of the edges returned by each of the 8 C++ build variants and by the model, and they "
+    "flag filtration and of the flag filtration of the edges returned by each of the 10 C++ build variants (8 plain, 2 under ASan+UBSan) and by the model, and they "
     "must be equal; the returned edge list is compared exactly with the model's.")
 MANIFEST = dict(
     cat="other",
     tech="Coq theorems about a transcription of the collapse sweep (termination / subset / monotone values / no duplicates / table "
-         "variants agree / every move is a dominated-edge move / connected components preserved at every time) + differential run of the C++ (8 build variants) against the extracted model, persistence diagrams before/after "
+         "variants agree / every move is a dominated-edge move / connected components preserved at every time) + differential run of the C++ (10 build variants) against the extracted model, persistence diagrams before/after "
          "compared through the certified pairing oracle over Z_2 and Z_3",
     text="The structural clauses of the property, the hypothesis of the edge-collapse theorem at every step and the dimension-0 "
          "conclusion (components) are proved for all inputs of the algorithm model; the model is tied to the C++ by exact "
@@ -61,7 +61,11 @@ for tagged in (0, 1):
             fl = (["-DC12_TAGGED"] if tagged else []) + (["-DGUDHI_COLLAPSE_USE_DENSE_ARRAY"] if dense else []) + \
                  (["-DGUDHI_USE_TBB"] if tbb else [])
             VARIANTS.append((tag, fl))
-VAR_DESC = "d/t = Filtration_value double / index-tagged double; S/D = default / dense neighbour table; N/T = std::sort / tbb::parallel_sort"
+# two more builds of the double variants under AddressSanitizer + UBSan (memory errors / UB show up as DIED lines)
+VARIANTS.append(("aSN", ["-fsanitize=address,undefined", "-fno-sanitize-recover=all", "-fno-omit-frame-pointer", "-D_GLIBCXX_SANITIZE_VECTOR"]))
+VARIANTS.append(("aDN", ["-fsanitize=address,undefined", "-fno-sanitize-recover=all", "-fno-omit-frame-pointer", "-D_GLIBCXX_SANITIZE_VECTOR",
+                         "-DGUDHI_COLLAPSE_USE_DENSE_ARRAY"]))
+VAR_DESC = "a = double under ASan+UBSan; d/t = Filtration_value double / index-tagged double; S/D = default / dense neighbour table; N/T = std::sort / tbb::parallel_sort"
 
 
 # ------------------------------------------------------------------------------------------- graphs
@@ -92,6 +96,8 @@ TIER = ["quick"]
 
 def choose_cap(edges, budget):
     """largest D such that the (D+1)-skeleton has <= budget simplices; full = the whole complex fits"""
+    if budget <= 0:
+        return -1, 0, False
     c = clique_counts(edges)
     top = len(c) - 1
     tot = 0
@@ -296,7 +302,46 @@ def generate(rng, tier):
     for _ in range(rep * 8):
         base = g_cone(rng, g_cycle(rng, rng.randint(4, 6), "few"), 3, 6)
         add("double-cone", g_cone(rng, base, 2, 9), budget=80)
+    # larger graphs (up to 30 vertices, 435 edges): too large for the dense pairing oracle; the returned list is compared with the
+    # model exactly and the connected components at every threshold are compared before/after (budget 0 = no diagrams)
+    for _ in range(rep * 12):
+        n = rng.randint(11, 30)
+        p = rng.choice((0.1, 0.2, 0.35, 0.5, 0.8, 1.0))
+        fam = rng.choice(("sparse", "rips"))
+        if fam == "sparse":
+            add("large-%s" % ("11-20" if n <= 20 else "21-30"), g_sparse(rng, n, p, rng.choice(W_STYLES)), budget=0)
+        else:
+            add("large-rips-%s" % ("11-20" if n <= 20 else "21-30"), g_rips(rng, n, rng.choice((3, 6, 12)), rng.choice((5, 20, 80))), budget=0)
     return cases
+
+
+def components_profile(edges):
+    """canonical description of the connected components of the graph at every threshold (union-find)"""
+    if not edges:
+        return ()
+    n = max(max(u, v) for (u, v, _) in edges) + 1
+    parent = list(range(n))
+
+    def find(x):
+        while parent[x] != x:
+            parent[x] = parent[parent[x]]
+            x = parent[x]
+        return x
+    out = []
+    es = sorted(edges, key=lambda e: e[2])
+    i = 0
+    while i < len(es):
+        w = es[i][2]
+        merged = False
+        while i < len(es) and es[i][2] == w:
+            a, b = find(es[i][0]), find(es[i][1])
+            if a != b:
+                parent[a] = b
+                merged = True
+            i += 1
+        if merged:
+            out.append((w, tuple(sorted(tuple(sorted(x for x in range(n) if find(x) == r)) for r in {find(x) for x in range(n)}))))
+    return tuple(out)
 
 
 # ------------------------------------------------------------------------------------------- running
@@ -430,6 +475,15 @@ def evaluate(ctx, res, bins, orc, cases, record=True):
         if f["SPEC"] != "ok":
             viol.append((ci, "output-edge-not-input-or-value-lowered", "variant %s returns [%s]: some edge is not an input edge, or its value is "
                          "below its input value / not an input value, or an edge is repeated" % (vtag, p[1]), vtag, "out_ok = true", p[1]))
+        if per_case[ci][0] < 0:
+            r = p[1].split()
+            outg = [(int(r[k]), int(r[k + 1]), int(r[k + 2])) for k in range(0, len(r), 3)]
+            n_in = max(max(u, v) for (u, v, _) in es) + 1
+            pin = components_profile(es)
+            pout = components_profile(outg + [(n_in - 1, n_in - 1, min(w for (_, _, w) in es))])
+            if pin != pout:
+                viol.append((ci, "components-changed", "variant(s) %s: the connected components of the returned graph differ from the "
+                             "input's at some threshold" % ",".join(tags), vtag, str(pin)[:300], str(pout)[:300]))
         if f["DOUT"] != "=":
             viol.append((ci, "persistence-diagram-changed", "variant(s) %s: diagram of the input flag filtration %s, of the output %s (dims 0..%d)"
                          % (",".join(tags), f["DIN"], f["DOUT"], per_case[ci][0]), vtag, f["DIN"], f["DOUT"]))
@@ -447,8 +501,8 @@ def evaluate(ctx, res, bins, orc, cases, record=True):
             if "+relabel" in fam:
                 res.count("relabelled")
             res.count("edges:%s" % ("0" if not es else "1-5" if len(es) <= 5 else "6-15" if len(es) <= 15 else "16-30" if len(es) <= 30 else "31-45"))
-            res.count("simplices:%s" % ("<=16" if nsimp <= 16 else "<=64" if nsimp <= 64 else "<=130" if nsimp <= 130 else "<=190"))
-            res.count("dims-compared:0..%d%s" % (cap, "" if full else " (truncated)"))
+            res.count("simplices:%s" % ("not-built" if cap < 0 else "<=16" if nsimp <= 16 else "<=64" if nsimp <= 64 else "<=130" if nsimp <= 130 else "<=190"))
+            res.count(("dims-compared:0..%d%s" % (cap, "" if full else " (truncated)")) if cap >= 0 else "dims-compared:none (components only)")
             ws = [w for (_, _, w) in es]
             res.count("values-fed:%s" % ("w/8 (dyadic)" if scaled(es) else "integers"))
             res.count("ties:%s" % ("none" if len(set(ws)) == len(ws) else "all-equal" if len(set(ws)) == 1 else "heavy" if len(set(ws)) * 2 <= len(ws) else "some"))
@@ -509,7 +563,7 @@ def check(ctx, replay=None):
     seen_kinds = {}
     for (ci, kind, what, vtag, exp, obs) in viol:
         seen_kinds.setdefault(kind, []).append((ci, what, vtag, exp, obs))
-    PROPERTY_KINDS = {"persistence-diagram-changed", "output-edge-not-input-or-value-lowered", "crash-or-exception"}
+    PROPERTY_KINDS = {"persistence-diagram-changed", "components-changed", "output-edge-not-input-or-value-lowered", "crash-or-exception"}
     only_correspondence = not (set(seen_kinds) & PROPERTY_KINDS)
     for kind, lst in seen_kinds.items():
         lst.sort(key=lambda x: len(cases[x[0]][1]))
@@ -532,9 +586,9 @@ def check(ctx, replay=None):
                           no_input=(only_correspondence and kind in ("edge-list-differs-from-model", "build-variants-disagree",
                                                                      "processing-order-not-reproduced", "processing-order-not-sorted")))
     res.distinct = {tuple(es) for (_, es, _) in cases if len(es) >= 3}
-    res.rule = ("one case = one weighted graph (edge list in input order); every case is run under the 8 build variants and every distinct "
+    res.rule = ("one case = one weighted graph (edge list in input order); every case is run under the 10 build variants and every distinct "
                 "(processing order, returned list) goes through the oracle; distinct non-trivial = distinct edge lists with at least 3 edges; "
-                "evaluations = case x build variant")
+                "evaluations = case x build variant (8 plain + 2 sanitizer builds)")
     res.samples = [{"family": cases[i][0], "edges": [list(e) for e in cases[i][1]]} for i in sorted(ctx.rng.sample(range(len(cases)), min(8, len(cases))))]
     res.count("build-variants", len(VARIANTS))
     res.notes.append("build variants: " + ", ".join(t for t, _ in VARIANTS) + " (" + VAR_DESC + ")")
